@@ -649,7 +649,7 @@ func genCase(r *rand.Rand, fastPathScope, typedMacroScope, deadInitScope bool) c
 		cd.B = side{Files: copyFiles(gg.files), Root: layout}
 		cd.B.Files[layout] = imp + own.inline(ext != layoutExt) + lb.String()
 		return cd
-	case rel < 73: // imported macro vs the same macro declared locally
+	case rel < 71: // imported macro vs the same macro declared locally
 		rootExt := formats[r.Intn(3)]
 		libExt := rootExt
 		if r.Intn(4) == 0 {
@@ -708,7 +708,7 @@ func genCase(r *rand.Rand, fastPathScope, typedMacroScope, deadInitScope bool) c
 			cd.Note += ", typed"
 		}
 		return cd
-	case rel < 83: // {% import "f" for N %} / period imports vs qualified imports, with files that declare the same names
+	case rel < 80: // {% import "f" for N %} / period imports vs qualified imports, with files that declare the same names
 		rootExt := formats[r.Intn(3)]
 		root := rootDir + "index" + rootExt
 		pool := []string{"Na", "Nb", "Nc", "Va", "Vb"}
@@ -786,7 +786,7 @@ func genCase(r *rand.Rand, fastPathScope, typedMacroScope, deadInitScope bool) c
 		cd.B = side{Files: copyFiles(gg.files), Root: root}
 		cd.B.Files[root] = strings.Join(impB, "") + useB.String()
 		return cd
-	case rel < 89: // using statement vs the macro it stands for
+	case rel < 85: // using statement vs the macro it stands for
 		rootExt := formats[r.Intn(3)]
 		root := rootDir + "index" + rootExt
 		p := gg.newTarget(rootExt)
@@ -812,7 +812,111 @@ func genCase(r *rand.Rand, fastPathScope, typedMacroScope, deadInitScope bool) c
 		cd.B = side{Files: copyFiles(gg.files), Root: root}
 		cd.B.Files[root] = x + "{% macro U_ %}" + body + "{% end macro %}{% show " + eb + " %}" + y
 		return cd
-	case rel < 96: // a page with code that never runs vs the page without it
+	case rel < 92: // renaming the local variables of a file does not change its output
+		// Side A names the locals captured by body-level macros, function literals and
+		// using bodies like the package variables (unexported and exported) of the
+		// file it imports, or of the file that extends it; side B gives them names
+		// that occur nowhere else.
+		ext := formats[r.Intn(3)]
+		pool := []string{"n", "count", "tmp"}
+		unit := func(names []string, libMacro string) string {
+			var b strings.Builder
+			b.WriteString(gg.atom(ext))
+			for i, name := range names {
+				open, close := "", ""
+				if inner := r.Intn(3) == 0; inner || i >= len(pool) {
+					// (the names after the pool are the exported ones, on both sides)
+					// in an inner block (an exported name of a period import can only be shadowed there)
+					open, close = "{% if true %}", "{% end if %}"
+				}
+				b.WriteString(open)
+				fmt.Fprintf(&b, "{%% var %s = \"loc%d\" %%}", name, i)
+				fmt.Fprintf(&b, "{%% macro C%d %%}c:{{ %s }}{%% %s = %s + \"+\" %%}{%% end macro %%}", i, name, name, name)
+				fmt.Fprintf(&b, "%s{{ C%d() }}[{{ %s }}]{{ C%d() }}%s", gg.atom(ext), i, name, i, gg.atom(ext))
+				switch r.Intn(3) {
+				case 0:
+					fmt.Fprintf(&b, "{%% f%d := func() string { return %s } %%}{{ f%d() }}%s", i, name, i, gg.atom(ext))
+				case 1:
+					fmt.Fprintf(&b, "{%% show itea; using %%}u:{{ %s }}{%% end using %%}%s", name, gg.atom(ext))
+				}
+				b.WriteString("{{ " + libMacro + " }}" + gg.atom(ext))
+				b.WriteString(close)
+			}
+			return b.String()
+		}
+		k := 1 + r.Intn(3)
+		if r.Intn(2) == 0 {
+			k = len(pool) // so that an appended exported name has an index after the pool
+		}
+		namesA := append([]string{}, pool[:k]...)
+		var namesB []string
+		for i := range namesA {
+			namesB = append(namesB, fmt.Sprintf("zq%d", i))
+		}
+		cd := caseData{Rel: "local-rename"}
+		libSrc := "{% var n = 11 %}\n{% var count = 12 %}\n{% var tmp = 13 %}\n{% var Kx = 14 %}\n{% macro LM %}lm:{{ n }}{{ count }}{{ tmp }}{{ Kx }}{% n++ %}{% end macro %}\n"
+		root := rootDir + "index" + ext
+		switch form := r.Intn(4); form {
+		case 0, 1: // the page imports the file (period, named or for import)
+			lname := gg.pick(dirs) + "priv" + ext
+			gg.files[lname] = libSrc
+			ref := gg.relPath(root, lname)
+			imp, call := fmt.Sprintf("{%% import %q %%}", ref), "LM()"
+			switch r.Intn(3) {
+			case 0:
+				imp, call = fmt.Sprintf("{%% import lib %q %%}", ref), "lib.LM()"
+			case 1:
+				imp = fmt.Sprintf("{%% import %q for LM %%}", ref)
+			default:
+				// period import: the exported variable can be shadowed in an inner block too
+				if len(namesA) == len(pool) {
+					namesA = append(namesA, "Kx")
+					namesB = append(namesB, "zqx")
+				}
+			}
+			state := r.Int63()
+			mk := func(names []string) string {
+				r.Seed(state) // the two sides differ in the names only
+				return imp + unit(names, call)
+			}
+			cd.Note = "page imports, " + ext
+			cd.A = side{Files: copyFiles(gg.files), Root: root}
+			cd.B = side{Files: copyFiles(gg.files), Root: root}
+			cd.A.Files[root] = mk(namesA)
+			cd.B.Files[root] = mk(namesB)
+		case 2: // a rendered file imports it
+			lname := gg.pick(dirs) + "priv" + ext
+			gg.files[lname] = libSrc
+			pname := gg.pick(dirs) + "user" + ext
+			state := r.Int63()
+			mk := func(names []string) string {
+				r.Seed(state)
+				return fmt.Sprintf("{%% import %q %%}", "/"+lname) + unit(names, "LM()")
+			}
+			rootSrc := fmt.Sprintf("%s{{ render %q }}%s{{ render %q }}%s", gg.atom(ext), gg.relPath(root, pname), gg.atom(ext), "/"+pname, gg.atom(ext))
+			cd.Note = "rendered file imports, " + ext
+			cd.A = side{Files: copyFiles(gg.files), Root: root}
+			cd.B = side{Files: copyFiles(gg.files), Root: root}
+			cd.A.Files[root], cd.B.Files[root] = rootSrc, rootSrc
+			cd.A.Files[pname] = mk(namesA)
+			cd.B.Files[pname] = mk(namesB)
+		default: // the layout's locals against the private variables of the file that extends it
+			layout := gg.pick(dirs) + "layout" + ext
+			child := fmt.Sprintf("{%% extends %q %%}\n{%% var n = 100 %%}\n{%% var count = 200 %%}\n{%% var tmp = 300 %%}\n{%% macro Body %%}b:{{ n }}{{ count }}{{ tmp }}{%% n++ %%}{%% end macro %%}\n", gg.relPath(root, layout))
+			state := r.Int63()
+			mk := func(names []string) string {
+				r.Seed(state)
+				return unit(names, "Body()")
+			}
+			cd.Note = "layout vs extending file, " + ext
+			cd.A = side{Files: copyFiles(gg.files), Root: root}
+			cd.B = side{Files: copyFiles(gg.files), Root: root}
+			cd.A.Files[root], cd.B.Files[root] = child, child
+			cd.A.Files[layout] = mk(namesA)
+			cd.B.Files[layout] = mk(namesB)
+		}
+		return cd
+	case rel < 97: // a page with code that never runs vs the page without it
 		rootExt := gg.pick([]string{".html", ".html", ".md", ".txt", ".js"})
 		root := rootDir + "index" + rootExt
 		var live []string
